@@ -373,6 +373,8 @@ class PhaseField(_Simu):
             u_np1 = self.__Solve_elastic()
             # new displacement -> new damage matrices
             self.__updatedDamage = False
+            # the energy split depends on the strain: the displacement matrices follow the displacement too
+            self.__updatedDisplacement = False
 
             if convOption == 0:
                 convIter = np.max(np.abs(d_np1 - d_n))
